@@ -87,7 +87,7 @@ class Fn:
     def where(self, pt=None):
         if pt is None:
             return "%s:%s" % (self.file, self.line)
-        return "%s:%s" % (self.file, self.node(pt).get("ln", self.line))
+        return "%s:%s" % (self.blocks[pt.bb].get("file", self.file), self.node(pt).get("ln", self.line))
 
     # --- structure
     def nblocks(self): return len(self.blocks)
@@ -102,7 +102,7 @@ class Fn:
 
     def points(self, cleanup=False):
         for bi, b in enumerate(self.blocks):
-            if b["cl"] and not cleanup:
+            if (b["cl"] and not cleanup) or b.get("ghost"):
                 continue
             for i in range(len(b["st"]) + 1):
                 yield Point(bi, i)
@@ -207,8 +207,8 @@ class Program:
         return [im for im in self.impls if norm(im.get("trait") or "") == trait]
 
     def closures_of(self, f):
-        pre = f.id + "::{closure#"
-        return [g for k, g in sorted(self.fns.items()) if k.startswith(pre)]
+        pres = tuple(x + "::{closure#" for x in [f.id] + list(getattr(f, "inlined", ())))
+        return [g for k, g in sorted(self.fns.items()) if k.startswith(pres)]
 
     def callers(self):
         """callee id -> set of (caller Fn, Point)"""
@@ -293,13 +293,28 @@ def trace_place(f, place, depth=0, at=None):
             if "f" in e:
                 base = O("field", base, norm(e["a"]), e["f"])
             elif "dc" in e:
-                base = O("downcast", base, e["dc"])
+                tb = _try_branch_arg(f, base, depth)
+                if tb is not None and e["dc"] == "Continue":
+                    # `x?`: (Try::branch(x) as Continue).0 is the payload of x, same shape as `if let Some(v) = x`
+                    base = O("downcast", tb[0], "Some" if tb[1] == "Option" else "Ok")
+                else:
+                    base = O("downcast", base, e["dc"])
             elif "ix" in e:
                 base = O("index", base, trace_local(f, e["ix"], depth + 1))
             elif "cix" in e:
                 base = O("index", base, O("const", str(e["cix"]), str(e["cix"])))
         # opaque etc ignored
     return base
+
+_TRY_RX = re.compile(r"<std::(option::Option|result::Result) as std::ops::Try>::branch")
+def _try_branch_arg(f, o, depth=0):
+    """o is the result of `Try::branch(x)` -> (origin of x, "Option"|"Result")"""
+    if o[0] != "call" or not o[2]: return None
+    m = _TRY_RX.fullmatch(o[2])
+    if not m: return None
+    t = f.term(o[1])
+    if t.get("t") != "call" or not t["args"]: return None
+    return trace_operand(f, t["args"][0], depth + 1), ("Option" if "Option" in m.group(1) else "Result")
 
 def trace_local(f, l, depth=0, at=None):
     key = l
@@ -1023,8 +1038,35 @@ class Atom:
 def edge_atoms(prog, f, bb, label):
     if label is None or label[0] not in ("sw", "sw_else"):
         return []
-    t = f.term(bb)
     o = switch_info(f, bb)
+    atoms = _edge_atoms_of(prog, f, bb, label, o)
+    # value-level summary of a small helper (inline.ghost_expose): the facts of its return expression hold on this edge too
+    seen = 0
+    cur = o
+    while seen < 3:
+        seen += 1
+        neg = 0
+        x = cur
+        wrap = []
+        while x[0] in ("un", "cast", "discr") :
+            wrap.append(x); x = simplify(x[2] if x[0] == "un" else x[1])
+        if x[0] != "call": break
+        ct = f.term(x[1])
+        gr = ct.get("ghost_ret") if ct.get("t") == "call" else None
+        if gr is None: break
+        gv = simplify(trace_local(f, gr))
+        if gv[0] in ("phi", "local"): break
+        # rebuild the wrappers around the ghost value
+        for w in reversed(wrap):
+            if w[0] == "un": gv = O("un", w[1], gv)
+            elif w[0] == "cast": gv = O("cast", gv, w[2], w[3])
+            else: gv = O("discr", gv, w[2] if len(w) > 2 else None)
+        atoms = atoms + _edge_atoms_of(prog, f, bb, label, gv)
+        cur = gv
+    return atoms
+
+def _edge_atoms_of(prog, f, bb, label, o):
+    t = f.term(bb)
     dty = t.get("dty")
     eq = label[0] == "sw"
     vals = (label[1],) if eq else tuple(label[1])
@@ -1050,6 +1092,13 @@ def edge_atoms(prog, f, bb, label):
                     atoms.append(Atom("variant", origin=o[1], name=rest[0]))
                 else:
                     atoms.append(Atom("variant_in", origin=o[1], names=tuple(rest)))
+        # the `?` operator: the discriminant of Try::branch(x) is the discriminant of x under another name
+        for a in list(atoms):
+            if a.kind == "variant":
+                tb = _try_branch_arg(f, a.origin)
+                if tb is not None and a.name in ("Continue", "Break"):
+                    nm = {"Option": {"Continue": "Some", "Break": "None"}, "Result": {"Continue": "Ok", "Break": "Err"}}[tb[1]][a.name]
+                    atoms.append(Atom("variant", origin=simplify(tb[0]), name=nm))
         atoms.append(Atom("val", origin=o, eq=eq, vals=vals))
         return atoms
     if truth is not None:
